@@ -1718,4 +1718,87 @@ example :
     errOf ((SObj.fresh { apiIn with pvec := none }).asdict apiMag 10000000000000000 (some ["bogus", "G"])).2 = some .assert := by
   decide +kernel
 
+/-! ### second pass of the extender round: refusals of `DifferentialDisplacement.solve`, the broadcasting chain, `disregistry` from
+    the two systems (end to end) -/
+
+/-- the list a `solve` call designates under the reference `r`: given > cutoff list of the reference system > stored. -/
+def DObj.listFor (o : DObj K) (a : DArgs K) (r : Nat) : Option (List (List Nat)) :=
+  match a.neighbors with
+  | some nl => some nl
+  | none => match a.cutoff with
+    | some ll => some (if r = 0 then ll.1 else ll.2)
+    | none => o.nlist
+
+/-- **DObj.solve_refuses_iff**: `solve` raises `AssertionError` exactly when the atom counts of the systems now in use
+    differ or a `reference` other than 0 / 1 is given; `ValueError` exactly when (those being fine) no list is designated
+    or the designated list has no pair at all; and succeeds exactly otherwise. -/
+theorem DObj.solve_refuses_iff (o : DObj K) (a : DArgs K) :
+    let cnt := (a.sys0.getD o.sys0).n = (a.sys1.getD o.sys1).n
+    let refOk := ∀ r, a.reference = some r → r = 0 ∨ r = 1
+    let r := a.reference.getD o.reference
+    ((o.solve a).2 = some .assert ↔ ¬ cnt ∨ ¬ refOk) ∧
+    ((o.solve a).2 = some .value ↔ cnt ∧ refOk ∧
+      (o.listFor a r = none ∨ ∃ nl, o.listFor a r = some nl ∧ nl.all (·.isEmpty) = true)) ∧
+    ((o.solve a).2 = none ↔ cnt ∧ refOk ∧ ∃ nl, o.listFor a r = some nl ∧ nl.all (·.isEmpty) = false) := by
+  rcases o with ⟨o0, o1, oref, onl, odd⟩
+  rcases a with ⟨a0, a1, anb, acut, aref⟩
+  unfold DObj.solve DObj.listFor
+  simp only [ne_eq]
+  by_cases hc : (a0.getD o0).n = (a1.getD o1).n
+  · rcases aref with _ | r
+    · cases anb <;> cases acut <;> cases onl <;> simp [hc] <;> (repeat' split) <;> (try simp_all) <;> (try grind)
+    · by_cases hr : r = 0 ∨ r = 1
+      · cases anb <;> cases acut <;> cases onl <;> simp [hc, hr] <;> (repeat' split) <;> (try simp_all) <;> (try grind)
+      · simp [hc, hr]
+  · simp [hc]
+
+/-- the broadcasting rule of the model is the test chain of the source (`gen_dispatchKind_eq_model`) read per kind. -/
+theorem dispatchP_eq_byKind (n : Nat) (arg : PArg K) : dispatchP n arg = dispatchByKind n arg := by
+  cases arg with
+  | flat ps => simp only [dispatchP, dispatchByKind, dispatchKind]; split_ifs <;> rfl
+  | nested pss => simp only [dispatchP, dispatchByKind, dispatchKind]; split_ifs <;> rfl
+
+/-- **disregistryCall_refuses_iff**: the call raises before any plane is looked at exactly when the atom counts differ
+    (the `ValueError` of `displacement`); otherwise it is the plane selection of `disregistry_refuses_iff`. -/
+theorem disregistryCall_refuses_iff (atol rtol : K) (n0 n1 : Nat) (c0 c1 : Cell K) (pos0 pos1 : Nat → V3 K)
+    (m n planepos : V3 K) :
+    (disregistryCall atol rtol n0 n1 c0 c1 pos0 pos1 m n planepos = .error .value ↔ n0 ≠ n1) ∧
+    (n0 = n1 → disregistryCall atol rtol n0 n1 c0 c1 pos0 pos1 m n planepos =
+      .ok (disregistry atol rtol ((List.range n0).map fun i =>
+        (V3.dot (pos0 i) m, V3.dot (pos0 i) n, c1.dv (pos0 i) (pos1 i))) (V3.dot planepos n))) := by
+  unfold disregistryCall disregistryInputs displacementCall
+  by_cases h : n0 = n1 <;> simp [h, displacement]
+
+/-- **disregistryCall_rigid** (end to end): two systems with the same number of atoms, every atom moved by `u i` plus a
+    lattice vector the image loops undo (`u i` strictly shortest), the atoms of every plane above `planepos·n` carrying
+    `uA` and those below `uB` ⇒ the call is accepted by `displacement`, and whenever the plane selection returns a profile
+    every entry of it is `uA - uB` — for any `m`, `n`, `planepos`, any cells. -/
+theorem disregistryCall_rigid (atol rtol : K) (ha : 0 ≤ atol) (hr : 0 ≤ rtol) (nat : Nat) (c0 c1 : Cell K)
+    (pos0 pos1 u : Nat → V3 K) (s : Nat → Shift) (m n planepos uA uB : V3 K)
+    (hs : ∀ i < nat, s i ∈ cands c1.px c1.py c1.pz)
+    (hu : ∀ i < nat, shiftBy c1.vects (pos1 i - pos0 i) (s i) = u i)
+    (hmin : ∀ i < nat, ∀ t ∈ cands c1.px c1.py c1.pz, shiftBy c1.vects (pos1 i - pos0 i) t = u i ∨
+      V3.normSq (u i) < V3.normSq (shiftBy c1.vects (pos1 i - pos0 i) t))
+    (hA : ∀ i < nat, ∀ y, V3.dot planepos n < y → isclose atol rtol (V3.dot (pos0 i) n) y = true → u i = uA)
+    (hB : ∀ i < nat, ∀ y, y < V3.dot planepos n → isclose atol rtol (V3.dot (pos0 i) n) y = true → u i = uB) :
+    ∃ res, disregistryCall atol rtol nat nat c0 c1 pos0 pos1 m n planepos = .ok res ∧
+      ∀ r, res = some r → ∀ e ∈ r, e.2 = uA - uB := by
+  obtain ⟨d, hd, hdi⟩ := displacementCall_is_imposed nat c0 c1 pos0 pos1 u s hs hu hmin
+  unfold disregistryCall disregistryInputs
+  rw [hd]
+  refine ⟨_, rfl, fun r hres e he => ?_⟩
+  refine disregistry_rigid_full atol rtol ha hr _ _ uA uB r ?_ ?_ hres e he
+  · intro y hy a hmem hc
+    obtain ⟨i, hi, rfl⟩ := List.mem_map.1 hmem
+    have hi' : i < nat := List.mem_range.1 hi
+    simp only at hc ⊢
+    rw [hdi i hi']
+    exact hA i hi' y hy hc
+  · intro y hy a hmem hc
+    obtain ⟨i, hi, rfl⟩ := List.mem_map.1 hmem
+    have hi' : i < nat := List.mem_range.1 hi
+    simp only at hc ⊢
+    rw [hdi i hi']
+    exact hB i hi' y hy hc
+
 end Atomman.C17
